@@ -111,11 +111,24 @@ Fixpoint explore_round (fuel : nat) (s : st) (acc : list out) (items : list item
     end
   end.
 
+(* a sleep of the worker ends by itself: besides the wake-ups the harness observed (EvWake items, from the pool's CheckAndInit
+   record that follows the sleep of doRetry), the worker may have woken at any round boundary *)
+Definition wake_variants (x : option (st * list out)) : list (option (st * list out)) :=
+  match x with
+  | Some (s, acc) => if sleeping s then [x; Some (fst (env_step c EvWake s), acc)] else [x]
+  | None => [None]
+  end.
+
 Fixpoint explore (rounds : list (list item)) (cur : list (option (st * list out))) : list (option (st * list out)) :=
   match rounds with
   | [] => flat_map (fun x => match x with
-                             | Some (s, acc) => [run_worker 400 s acc]
-                             | None => [None] end) cur
+                             | Some (s, acc) =>
+                               match run_worker 400 s acc with
+                               | Some (s1, acc1) =>
+                                 if sleeping s1 then [Some (s1, acc1); run_worker 400 (fst (env_step c EvWake s1)) acc1] else [Some (s1, acc1)]
+                               | None => [None]
+                               end
+                             | None => [None] end) (flat_map wake_variants cur)
   | r :: rest =>
     let next := flat_map (fun x =>
       match x with
@@ -128,7 +141,7 @@ Fixpoint explore (rounds : list (list item)) (cur : list (option (st * list out)
                end
         end
       | None => [None]
-      end) cur in
+      end) (flat_map wake_variants cur) in
     explore rest next
   end.
 
